@@ -22,7 +22,9 @@ theorem C10_total (a : Acc) (s : List Char) (v : Int) (k : Nat) (chk : Option (L
 theorem C10_scan_terminates (a : Acc) (s : List Char) (v : Int) (k : Nat) :
     ∃ st, scan a k s (s.length + 1) { v := v, queue := List.replicate s.length (-1) } = some st ∧
       s.length ≤ st.loc ∧ st.detected * (k + 1) ≤ s.length + k := by
-  sorry
+  obtain ⟨st, hs, hP, hl⟩ := scan_init_inv a k s v (ScanCount k s) (ScanCount.init k s v)
+    (ScanCount.step a k s)
+  exact ⟨st, hs, hl, Nat.le_trans hP.det_le hP.loc_le⟩
 
 /-- the number of successful graph look-ups is polynomial in the strand length:
 at most `|s|` in the scan plus `18·k²` per detection, and there are at most `(|s| + k)/(k + 1)`
